@@ -9,11 +9,34 @@
 import YashModel.Common.Proto
 import YashModel.Syntax.Model
 import YashModel.Syntax.Sexp
+import YashModel.Syntax.Lexer
 import YashModel.Syntax.Spec
 open YashModel YashModel.Syntax YashModel.Proto
 
+/-- an escape unit in the notation of the tree S-expressions -/
+def showEscape : EscapeUnit → String
+  | .literal c => s!"(L {encChars [c]})"
+  | .doubleQuote => "dq" | .singleQuote => "sq" | .backslash => "bs" | .question => "qm"
+  | .alert => "a" | .backspace => "b" | .escape => "e" | .formFeed => "f" | .newline => "n"
+  | .carriageReturn => "r" | .tab => "t" | .verticalTab => "v"
+  | .control b => s!"(c {b.toNat})"
+  | .octal b => s!"(o {b.toNat})"
+  | .hex b => s!"(x {b.toNat})"
+  | .unicode c => s!"(u {c.toNat})"
+
+/-- `X <hex text>`: `EscapeUnit::from_str` = `Lexer::escape_unit` on the text -/
+def runEscape (h : String) : String :=
+  match decChars h with
+  | none => "bad-case\t-"
+  | some [] => "esc-none\t-"
+  | some cs =>
+    match lexEscape cs with
+    | some (u, _) => s!"esc {showEscape u}\t-"
+    | none => "esc-error\t-"
+
 def runLine (line : String) : String :=
   if line.startsWith "R " || line.startsWith "G " then "total\t-" else
+  if line.startsWith "X " then runEscape (line.drop 2).trimAscii.toString else
   -- `E <Variant> <source>` / `EP …`: a recorded syntax-error class; the model has no error model and echoes it
   if line.startsWith "E " || line.startsWith "EP " then
     match line.splitOn " " with
